@@ -25,6 +25,45 @@ type Call struct {
 	Script   string `json:"script"`
 	IdemOv   int    `json:"idem_override"`  // -1 unset, 0 false, 1 true
 	RetryOv  int    `json:"retry_override"` // -1 unset
+	// Spell chooses the Go type the overrides are stored with (0 = bool / int): the context items are a generic
+	// dictionary whose getters convert, so a caller may store int64(2), float64(0) or "false" as well
+	Spell int `json:"override_spelling,omitempty"`
+}
+
+func spellBool(b bool, spell int) interface{} {
+	n := 0
+	if b {
+		n = 1
+	}
+	switch spell % 6 {
+	case 1:
+		return n
+	case 2:
+		return float64(n)
+	case 3:
+		return fmt.Sprint(b)
+	case 4:
+		return uint8(n)
+	case 5:
+		return int64(n)
+	}
+	return b
+}
+
+func spellInt(n int, spell int) interface{} {
+	switch spell % 6 {
+	case 1:
+		return int64(n)
+	case 2:
+		return float64(n)
+	case 3:
+		return fmt.Sprint(n)
+	case 4:
+		return uint8(n)
+	case 5:
+		return int32(n)
+	}
+	return n
 }
 
 type Case struct {
@@ -43,6 +82,9 @@ func (c Case) String() string {
 			b.WriteByte(' ')
 		}
 		fmt.Fprintf(&b, "%s/i%d/r%d", k.Script, k.IdemOv, k.RetryOv)
+		if k.Spell != 0 {
+			fmt.Fprintf(&b, "/as(%T,%T)", spellBool(true, k.Spell), spellInt(1, k.Spell))
+		}
 	}
 	b.WriteByte(']')
 	return b.String()
@@ -109,10 +151,10 @@ func run(c Case) (bool, string, string) {
 		sc.mu.Unlock()
 		cc := core.NewClientContext()
 		if call.IdemOv >= 0 {
-			cc.Items().Set("idempotent", call.IdemOv == 1)
+			cc.Items().Set("idempotent", spellBool(call.IdemOv == 1, call.Spell))
 		}
 		if call.RetryOv >= 0 {
-			cc.Items().Set("retry", call.RetryOv)
+			cc.Items().Set("retry", spellInt(call.RetryOv, call.Spell))
 		}
 		res, err := client.InvokeContext(core.WithContext(context.Background(), cc), "fn", nil)
 		sc.mu.Lock()
@@ -273,6 +315,7 @@ func genCall(rt *rapid.T, label string) Call {
 		Script:  rapid.StringOfN(rapid.SampledFrom([]rune("seeepp")), 1, 6, -1).Draw(rt, label+"script"),
 		IdemOv:  rapid.SampledFrom([]int{-1, -1, 0, 1}).Draw(rt, label+"idem"),
 		RetryOv: rapid.SampledFrom([]int{-1, -1, -1, 0, 1, 2, 5}).Draw(rt, label+"retry"),
+		Spell:   rapid.SampledFrom([]int{0, 0, 0, 1, 2, 3, 4, 5}).Draw(rt, label+"spelling"),
 	}
 }
 
